@@ -223,6 +223,7 @@ type Planner struct {
 	out     map[string][]*Trans
 	covered map[*Trans]bool
 	mine    map[*Trans]bool
+	avoid   map[*Trans]bool
 	init    string
 	left    int
 }
@@ -230,7 +231,7 @@ type Planner struct {
 // NewPlanner: the transitions are divided among `parts` walkers; walker `part` must cover its share
 // (it may use any transition on the way, and those are checked as well).
 func NewPlanner(m *Model, part, parts int) *Planner {
-	p := &Planner{out: map[string][]*Trans{}, covered: map[*Trans]bool{}, mine: map[*Trans]bool{}, init: m.Init}
+	p := &Planner{out: map[string][]*Trans{}, covered: map[*Trans]bool{}, mine: map[*Trans]bool{}, avoid: map[*Trans]bool{}, init: m.Init}
 	// states in breadth-first order, so that one walker gets neighbouring states
 	order := map[string]int{}
 	queue := []string{m.Init}
@@ -267,6 +268,9 @@ func NewPlanner(m *Model, part, parts int) *Planner {
 
 func (p *Planner) Left() int { return p.left }
 
+// Avoid: the real server did not follow t; do not plan paths through it any more.
+func (p *Planner) Avoid(t *Trans) { p.avoid[t] = true }
+
 // MarkCovered records that t was executed (whether it was this walker's or not).
 func (p *Planner) MarkCovered(t *Trans) {
 	if p.mine[t] && !p.covered[t] {
@@ -298,7 +302,7 @@ func (p *Planner) Next(cur string) []*Trans {
 			}
 		}
 		for _, t := range p.out[n.key] {
-			if !seen[t.PostKey] {
+			if !seen[t.PostKey] && !p.avoid[t] {
 				seen[t.PostKey] = true
 				queue = append(queue, &node{key: t.PostKey, via: t, prev: n})
 			}
